@@ -58,16 +58,16 @@ def exAccepted (c : Cnd) (v : Val) : Bool :=
 /-- `condition.setExpression` -/
 def setExpression (c : Cnd) (v : Val) : Cnd := if c.exAccepted v then { c with ex := v } else c
 
-/-- `Condition.Valid()`: `none` = valid, `some e` = error class -/
+/-- `Condition.Valid()`: `none` = valid, `some e` = error class (classes ≥ 1000 are the library's own messages) -/
 def valid (K : Closures) (c : Cnd) : Option Nat :=
   match c.cfg.vpf with
   | some p => K.valid p
   | none =>
-    if c.kw.isEmpty then some 1
+    if c.kw.isEmpty then some 1001
     else match c.op with
-      | .none => some 2
-      | .cmp code => if Gen.cond_op_bogus { assert := code } then some 3 else (if c.ex.isNil then some 4 else none)
-      | .user _ _ _ => if c.ex.isNil then some 4 else none
+      | .none => some 1002
+      | .cmp code => if Gen.cond_op_bogus { assert := code } then some 1003 else (if c.ex.isNil then some 1004 else none)
+      | .user _ _ _ => if c.ex.isNil then some 1004 else none
 
 /-- `Cond(kw, op, ex)` -/
 def cond (K : Closures) (kw : Val) (o : Op) (ex : Val) : Cnd :=
